@@ -34,7 +34,7 @@ class PSNode(Node):
         service dates if the system state remains contant.
         """
         next_occupancy = min(self.number_of_individuals, self.ps_capacity)
-        inds_in_service = [ind for ind in self.all_individuals if ind.with_server]
+        inds_in_service = [ind for ind in self.all_individuals if ind.with_server and not ind.is_blocked]
         for ind in inds_in_service:
             current_period = self.simulation.current_time - ind.date_last_update
             if self.last_occupancy > 0:
